@@ -4,7 +4,7 @@
 // the Lean model: reload into a fresh object, compare every observable, re-save, compare bytes.
 //
 // usage: c11_ser <seed> <count-per-type> [types...]
-#include "c11_ser.h"
+#include "c11_big.h"
 
 using namespace c11;
 
@@ -100,6 +100,7 @@ void gen_dist(splitmix &r, unsigned n)
 int main(int argc, char *argv[])
 {
   vita::log::reporting_level = vita::log::lOFF;
+  std::cout << "symtab " << c11::M().symtab() << std::endl;   // also: the symbol set is built first
   const std::uint64_t seed(argc > 1 ? std::stoull(argv[1]) : 1);
   const unsigned n(argc > 2 ? unsigned(std::stoul(argv[2])) : 100);
   std::vector<std::string> types;
